@@ -107,8 +107,8 @@ Definition push_break (T : tables) (span : N) (g : gen) (p : pred) (s : bytes) :
 
 Fixpoint strip_spaces_r (r : bytes) : bytes :=   (* on the reversed text *)
   match r with
-  | 32 :: r' => strip_spaces_r r'
-  | _ => r
+  | c :: r' => if c =? 32 then strip_spaces_r r' else r
+  | [] => []
   end.
 Definition strip_trailing_spaces (s : bytes) : bytes := rev (strip_spaces_r (rev s)).
 
